@@ -2123,3 +2123,96 @@ Proof.
     apply filter_all_false. intros y Hy. apply (in_map fst) in Hy. pose proof (increasing_from_lower _ _ _ Hs2 Hy).
     replace (fst y <=? e) with false by lia. reflexivity.
 Qed.
+
+Theorem rbg_maximal c lo hi out_size :
+  wf c -> no_includes c -> 23 <= out_size ->
+  match walk_first (groups c) lo hi (out_size - 2) with
+  | [] => matching c KGroup lo hi = []
+  | g :: W =>
+      exists rest, matching c KGroup lo hi = map gentry ((g :: W) ++ rest)
+                   /\ rbg_stop_reason (is_128bit (s_uuid (snd g))) (out_size - 2) (g :: W) rest
+  end.
+Proof.
+  intros Hw Hn Ho. pose proof (walk_first_maximal (groups c) lo hi (out_size - 2) ltac:(lia)) as H.
+  rewrite matching_groups by auto. destruct (walk_first (groups c) lo hi (out_size - 2)) as [|g W].
+  - rewrite H. reflexivity.
+  - destruct H as (rest & H1 & H2). exists rest. rewrite H1. auto.
+Qed.
+
+Theorem fi_maximal c lo hi out_size x W :
+  wf c -> no_includes c -> from_handle lo (table c) = x :: W ->
+  let Wk := fi_walk (x :: W) hi (is16 (snd x)) (out_size - 2) in
+  exists rest,
+    filter (fun y => Bool.eqb (is16 (snd x)) (is16 (snd y))) (matching c KInfo lo hi) = Wk ++ rest
+    /\ (rest <> [] -> out_size - 2 - fsize (is16 (snd x)) * len Wk < fsize (is16 (snd x))).
+Proof.
+  intros Hw Hn Ef Wk. pose proof (from_handle_sorted c lo Hw Hn) as Hs. rewrite Ef in Hs.
+  destruct (fi_walk_maximal (x :: W) hi (is16 (snd x)) (out_size - 2) 0 Hs) as (rest & H1 & H2).
+  exists rest. split; [|exact H2]. rewrite matching_info, Ef, filter_filter. exact H1.
+Qed.
+
+(* ================================================================== Part F: Read By Type, every out_size *)
+Lemma seg_prefix lo mid hi b : lo <= mid -> mid <= hi -> seg lo mid b = firstn (N.to_nat (mid - lo)) (seg lo hi b).
+Proof.
+  intros H1 H2. rewrite (seg_app lo mid hi) by lia. rewrite firstn_app.
+  assert (L : length (seg lo mid b) = N.to_nat (mid - lo)) by (pose proof (seg_len lo mid b) as X; unfold len in X; lia).
+  rewrite <- L at 1. rewrite firstn_all. rewrite L, Nat.sub_diag. cbn [firstn]. rewrite app_nil_r. reflexivity.
+Qed.
+
+(* byte level statement without the bound on out_size: collect_attributes::size() is 8 bit wide, the response
+   is cut to 2 + (|entries| mod 256) bytes: the first bytes of the entry list *)
+Theorem read_by_type_bytes c st cid a0 a1 x0 x1 tyb ty b out_size st' r :
+  wf c -> no_includes c ->
+  a0 < 256 -> a1 < 256 -> x0 < 256 -> x1 < 256 ->
+  req_type tyb = Some ty -> ty <> U16 internal_128bit_uuid ->
+  let lo := w16 a0 a1 in let hi := w16 x0 x1 in
+  1 <= lo -> lo <= hi -> 23 <= out_size -> out_size <= len b ->
+  handle_read_by_type c st cid (8 :: a0 :: a1 :: x0 :: x1 :: tyb) b out_size = Some (st', r) ->
+  (snd r = 5 /\ seg 0 5 (fst r) = [1; 8; a0; a1; 10])
+  \/ (exists E sz, E <> [] /\ subseq (map fst E) (map fst (matching c (KType ty) lo hi))
+        /\ (forall x, In x E -> len (snd x) + 2 = sz)
+        /\ 2 + len (flat_map ebytes E) <= out_size
+        /\ snd r = 2 + len (flat_map ebytes E) mod 256 /\ snd r <= len (fst r)
+        /\ seg 0 (snd r) (fst r) = 9 :: sz :: firstn (N.to_nat (len (flat_map ebytes E) mod 256)) (flat_map ebytes E)).
+Proof.
+  intros Hw Hn Ha0 Ha1 Hx0 Hx1 Hty Hne lo hi Hlo Hhi Ho Hb H.
+  destruct (make_filter_spec a0 a1 x0 x1 tyb ty Hty Hne) as (Hlen & f & Hmk & Hf). cbv zeta in Hlen, Hmk.
+  unfold handle_read_by_type, check_size_and_handle_range in H.
+  destruct (rd_prefix5 8 a0 a1 x0 x1 tyb) as (R0 & R1 & R3). cbv zeta in R0, R1, R3.
+  set (pdu := 8 :: a0 :: a1 :: x0 :: x1 :: tyb) in *.
+  rewrite R0 in H. cbv iota beta in H.
+  replace (negb (len pdu =? 7) && negb (len pdu =? 21)) with false in H by (destruct Hlen as [-> | ->]; reflexivity).
+  rewrite R1, R3 in H. cbv iota beta in H. fold (w16 a0 a1) in H. fold (w16 x0 x1) in H. fold lo in H. fold hi in H.
+  replace ((lo =? 0) || (hi <? lo)) with false in H by lia.
+  destruct (from_first_index c lo Hw Hn) as [F1 F2].
+  destruct (first_index_by_handle c lo =? invalid_index) eqn:Efi.
+  - destruct (error_response 8 err_attribute_not_found lo b out_size) as [r'|] eqn:Ee; [|discriminate].
+    inversion H; subst st' r'. apply error_response_bytes in Ee; auto; [|lia]. left. tauto.
+  - apply N.eqb_neq in Efi. destruct (F2 Efi) as [F3 F4].
+    rewrite Hmk in H. cbv iota beta in H.
+    destruct (all_attributes _ c st cid f _ out_size _ _ hi) as [[st1 k]|] eqn:Ea; [|discriminate].
+    apply (aa_loop c cid f out_size _ hi ty Hw Hn Hf _ _ _ _ _ _ []) in Ea; cbn [co_cur co_buf]; try lia.
+    2:{ unfold col_inv. cbn [co_cur co_buf co_first co_size]. rewrite seg_nil.
+        split; [lia|]. split; [reflexivity|]. split; [reflexivity|]. split; [intros X; discriminate X|intros x []]. }
+    destruct Ea as (E & I1 & I2 & I3 & I4). cbn [app] in I1. cbn [co_buf co_cur] in I2, I3. rewrite F4, <- matching_type in I4.
+    destruct I1 as (J1 & J2 & J3 & J4 & J5).
+    assert (Hcur : co_cur k - 2 = len (flat_map ebytes E)) by (rewrite <- J2, seg_len; reflexivity).
+    destruct (co_cur k =? 2) eqn:E2.
+    + cbn [negb] in H. destruct (error_response 8 err_attribute_not_found lo (co_buf k) out_size) as [r'|] eqn:Ee; [|discriminate].
+      inversion H; subst st' r'. apply error_response_bytes in Ee; auto; [|lia]. left. tauto.
+    + cbn [negb] in H. apply N.eqb_neq in E2.
+      destruct (put (co_buf k) 0 [9; co_size k]) as [b1|] eqn:Ep; [|discriminate].
+      apply AttSrvProofsC01.some_inj in H. apply AttSrvProofsC01.pair_inj in H. destruct H as [<- <-].
+      cbn [fst snd]. pose proof (put_length _ _ _ _ Ep) as Lp. rewrite Hcur.
+      pose proof (N.mod_le (len (flat_map ebytes E)) 256 ltac:(lia)) as Hmod.
+      right. exists E, (co_size k).
+      assert (HE : E <> []).
+      { intros ->. cbn [flat_map] in J2. assert (X : len (seg 2 (co_cur k) (co_buf k)) = 0) by (rewrite J2; reflexivity).
+        rewrite seg_len in X. lia. }
+      set (mm := len (flat_map ebytes E) mod 256) in *.
+      split; [exact HE|]. split; [exact I4|]. split; [exact J5|]. split; [lia|]. split; [reflexivity|]. split; [lia|].
+      rewrite (seg_app 0 2) by lia. rewrite (seg_put_other _ _ _ _ 2 _ Ep) by (unfold len; cbn; lia).
+      rewrite (seg_prefix 2 _ (co_cur k)) by lia. rewrite J2.
+      pose proof (seg_put_self _ _ _ _ Ep) as X. change (0 + len [9; co_size k]) with 2 in X. rewrite X.
+      cbn [app]. repeat f_equal. lia.
+Qed.
